@@ -687,13 +687,20 @@ def check_accept(ctx, out):
     # character boundary): what "whatever the files contain" adds to C04's statement. Index arithmetic on tables
     # stays C04's.
     n_files = len(files)
-    shared.run_renamed(out, lambda o: C04.check_census(ctx, o, within=within, floor=0,
-                                                       kinds=lambda s: s["kind"] == "index-str" or (s["kind"].startswith("std:") and "str" in (s.get("recv_ty") or "") + s["detail"])),
-                       "C04", "C01")
-    if "C01.census" in out.rules and n_files:
-        out.rules["C01.census"]["found"] = out.rules["C01.census"].get("found", 0) + n_files
-        out.rules["C01.census"]["floor"] = 1
-        out.rules["C01.census"]["note"] = "%d file(s) of the diff-to-line-changes region examined; %s" % (n_files, out.rules["C01.census"].get("note", ""))
+    kinds = lambda s: s["kind"] == "index-str" or (s["kind"].startswith("std:") and "str" in (s.get("recv_ty") or "") + s["detail"])
+    shared.run_renamed(out, lambda o: C04.check_census(ctx, o, within=within, floor=0, kinds=kinds), "C04", "C01")
+    # positive control on every run (the expected count in the region is 0): the census still recognises sites of
+    # this kind where the crate has them today (the comment / tag position code)
+    from engine import census as _census
+    n_ctl = len([s for s in _census.sites(ctx, ctx.reachable_bodies()) if kinds(s)])
+    r = out.rules.get("C01.census")
+    if r is not None:
+        in_region = r.get("found", 0)
+        out.inst("C01.census", n_ctl if n_files else 0, FLOOR_TEXT_SITES,
+                 note="%d file(s) of the diff-to-line-changes region examined, %d text-dependent site(s) there discharged; positive control: %d such site(s) recognised in the whole crate" % (n_files, in_region, n_ctl))
+
+
+FLOOR_TEXT_SITES = 3
 
 
 def run(ctx, out, tier):
